@@ -31,11 +31,12 @@ from harness.svskit import Scenario, NOSEQ, NOID, ROOTID
 NODES3 = ['self', 'n1', 'n2']
 NODES5 = ['self', 'n1', 'n2', 'n3', 'n4']
 PROPS = ['Monotone', 'EntrywiseMax', 'OverclaimIgnored', 'MissingIffRaised', 'PublishEmitsFullVector',
-         'HeardIsMerge', 'SuppressionDecision', 'EmitsOnlyLocal', 'OutdatedStartsSuppression']
+         'HeardIsMerge', 'SuppressionDecision', 'EmitsOnlyLocal', 'OutdatedStartsSuppression', 'CallbackPublishEmits']
 INVS = ['TypeOK', 'OwnEntry', 'SteadyForgets']
 WITNESSES = ['SupEmit', 'SupNoEmit', 'OverclaimWouldRaise', 'Incomparable', 'OlderNoCallback', 'DamagedAccepted',
              'DamagedRejected', 'UndecodableInSup', 'Burst', 'PublishInSup', 'SteadyEmit', 'HeardInSup', 'EnterSup',
-             'ActRecvSV', 'ActPublish', 'ActTimerFire', 'ActTick', 'OutdatedZero']
+             'ActRecvSV', 'ActPublish', 'ActTimerFire', 'ActTick', 'OutdatedZero',
+             'CallbackPublish', 'CallbackPublishInSup', 'CallbackPublishTwice']
 DEV_SIG = {'devAgg': ('C18/SvsInst/TimerFire/SuppressionDecision/devAgg',
                       'suppression period in which a second vector was heard ends without a sync Interest although '
                       'local_sv is newer than the merge of the vectors heard (aggregate() merges with local_sv)'),
@@ -71,13 +72,13 @@ def flush(ctx):
 
 
 def consts(nodes, maxseq, packets, mode, dev, maxt, init=(0,), burst=2, sup=1, sync=9, jit=(0, 1), tick_ends=False,
-           hint=False):
+           hint=False, react=2):
     return {'NodeOrder': '<- Nodes%d' % len(nodes), 'MaxSeq': maxseq,
             'InitSeqs': '{%s}' % ','.join(map(str, init)),
             'Packets': packets if packets.startswith('{') else '<- %s' % packets,
             'Mode': '"%s"' % mode, 'Dev': '{%s}' % ','.join('"%s"' % d for d in dev),
             'SupBase': sup, 'SyncBase': sync, 'Jitter': '{%s}' % ','.join(map(str, jit)),
-            'MaxT': maxt, 'MaxBurst': burst, 'MaxEv': 0,
+            'MaxT': maxt, 'MaxBurst': burst, 'MaxReact': react, 'MaxEv': 0,
             'TickEnds': 'TRUE' if tick_ends else 'FALSE', 'UseHint': 'TRUE' if hint else 'FALSE'}
 
 
@@ -92,7 +93,8 @@ def stage_a(ctx):
     for mode, pk, ms, maxt, init in runs:
         name = 'Svs_A_%s_%s_%d' % (mode, pk, ms)
         cfg = os.path.join(tlc.BUILD, name + '.cfg')
-        tlc.write_cfg(cfg, constants=consts(NODES3, ms, pk, mode, (), maxt, init=init), invariants=INVS,
+        react = ctx.pick(1, 2)      # publications inside the missing-data callback (quick: B/C also cover 1 / 2)
+        tlc.write_cfg(cfg, constants=consts(NODES3, ms, pk, mode, (), maxt, init=init, react=react), invariants=INVS,
                       properties=PROPS + ['Witnesses'], view='View')
         r = tlc.run('SvsMC', cfg, workers=w, heavy=not ctx.quick, tag=name)
         ctx.add_tlc('Svs exhaustive mode=%s packets=%s nodes=3 MaxSeq=%d, unbounded events' % (mode, pk, ms), r)
@@ -102,13 +104,14 @@ def stage_a(ctx):
             continue
         # (TLC's -coverage costs a factor 4 here; the Act* witnesses establish that every action is taken)
         seen = set(re.findall(r'<<"WITNESS", "(\w+)">>', r.out))
-        miss = [x for x in WITNESSES if x not in seen and not (pk == 'PacketsPlain' and x.startswith('Damaged'))]
+        miss = [x for x in WITNESSES if x not in seen and not (pk == 'PacketsPlain' and x.startswith('Damaged'))
+                and not (react < 2 and x == 'CallbackPublishTwice')]
         if miss:
             raise tlc.MachineryError('vacuous: witness transitions never seen in %s: %s' % (name, miss))
     # the properties must reject each named deviation (otherwise they could not see the findings)
     for dev, expect in (('aggLocal', ('SuppressionDecision',)), ('noSeq', ('MissingIffRaised', 'EntrywiseMax'))):
         cfg = os.path.join(tlc.BUILD, 'Svs_A_dev_%s.cfg' % dev)
-        tlc.write_cfg(cfg, constants=consts(NODES3, 2, 'PacketsReplay', 'open', (dev,), 1), invariants=INVS,
+        tlc.write_cfg(cfg, constants=consts(NODES3, 2, 'PacketsReplay', 'open', (dev,), 1, react=0), invariants=INVS,
                       properties=PROPS, view='View')
         r = tlc.run('SvsMC', cfg, workers=w, heavy=False, tag='Svs_A_dev')
         ctx.add_tlc('Svs with deviation %s (must violate %s)' % (dev, '/'.join(expect)), r)
@@ -127,7 +130,7 @@ def jpacket(p):
 def edge_event(act, args):
     """(stimulus event for the executor / the trace, choice taken by the spec)"""
     if act == 'RecvSV':
-        return {'a': act, 'p': jpacket(args[0]), 'j': args[1]}, args[2]
+        return {'a': act, 'p': jpacket(args[0]), 'j': args[1], 'r': args[3]}, args[2]
     if act == 'TimerFire':
         return {'a': act, 'j': args[0]}, args[1]
     if act == 'Publish':
@@ -323,7 +326,7 @@ def stage_b(ctx):
     for nodes, ms, pk, budget in confs:
         name = 'Svs_B_%d' % ms
         cfg = os.path.join(tlc.BUILD, name + '.cfg')
-        tlc.write_cfg(cfg, constants=consts(nodes, ms, pk, 'impl', ('aggLocal', 'noSeq'), 10, tick_ends=True),
+        tlc.write_cfg(cfg, constants=consts(nodes, ms, pk, 'impl', ('aggLocal', 'noSeq'), 10, tick_ends=True, react=1),
                       invariants=INVS, view='View')
         g = graph.dump('SvsMC', cfg, workers=ctx.pick(4, 8), tag=name)
         ctx.add_tlc('Svs impl graph nodes=3 MaxSeq=%d packets=%s deviations as alternative edges (%d edges)' % (
@@ -386,7 +389,7 @@ def _validate(ctx, recs, idx, nodes, dev, name, maxseq, env=None, count=True):
                   constants=consts(nodes, maxseq, '{}', 'open', dev, 64, burst=3, hint=True),
                   invariants=['OwnEntry', 'SteadyForgets'],
                   properties=['Monotone', 'OverclaimIgnored', 'PublishEmitsFullVector', 'EmitsOnlyLocal', 'HeardIsMerge',
-                              'OutdatedStartsSuppression'],
+                              'OutdatedStartsSuppression', 'CallbackPublishEmits'],
                   constraints=['Mark'], postcondition='Post', view='TView')
     r, rejected = tlc.validate_traces('SvsTrace', cfg, tf, env=env, tag=name)
     if count:
@@ -534,7 +537,8 @@ def record_random(rng, nodes, n_events, sup, sync, rstep, njit):
             x = rng.random()
             j = rng.randrange(njit)
             if x < busy:
-                ev = {'a': 'RecvSV', 'p': random_packet(rng, nodes, cur['local'], cur['seq']), 'j': j}
+                ev = {'a': 'RecvSV', 'p': random_packet(rng, nodes, cur['local'], cur['seq']), 'j': j,
+                      'r': rng.choice([0, 0, 0, 1, 1, 2]) if cur['seq'] + 2 <= MAXSEQ_C else 0}
             elif x < busy + 0.08 and cur['seq'] < MAXSEQ_C:
                 ev = {'a': 'Publish', 'n': rng.choice([1, 1, 1, 2, 3]), 'j': j}
                 ev['n'] = min(ev['n'], MAXSEQ_C - cur['seq'])
@@ -545,6 +549,8 @@ def record_random(rng, nodes, n_events, sup, sync, rstep, njit):
                 d = t if rng.random() < 0.5 else rng.randint(1, t)
                 ev = {'a': 'Tick', 'd': d}
             cur = sc.apply(ev)
+            if ev['a'] == 'RecvSV' and cur['missed'] == 0:
+                ev['r'] = 0               # the callback did not run: the planned reaction is no part of the history
             ev['post'] = cur
             evs.append(ev)
         bg = sc.errors()
